@@ -1,4 +1,4 @@
 SPECIFICATION Spec
 CONSTANTS MaxLen = 3
-INVARIANTS C04_ExactlyOne C04_AtMostOne C07_MetaOnlyHttp C08_EventOrder C08_ProgramOrder C05_Dispatch C08_NoPublishOnFailure
+INVARIANTS C04_ExactlyOne C04_AtMostOne C07_MetaOnlyHttp C08_EventOrder C08_ProgramOrder C05_Dispatch C08_NoPublishOnFailure C08_ListenersSurviveRecovery
 CHECK_DEADLOCK FALSE
